@@ -22,6 +22,19 @@ def make_images(bdir, seed, cd, ndamaged, bigmeta=False):
     # several metadata blocks: many inodes / directory entries
     ents = treegen.gen_tree(r, bs=4096, nfiles=r.choice([8, 14]), ndirs=r.choice([3, 6]), specials=True, xattrs=True, hardlinks=True,
                             big=r.random() < 0.5, bigdir=r.choice([300, 600]) if not bigmeta else 2600, bigdir_dense=r.random() < 0.3 and not bigmeta)
+    if seed >> 63:
+        # item kind "hole variants" (marked in the seed so a replay rebuilds the same image): a few files made of the same stored blocks
+        # with zero blocks at different places - the block writer's duplicate detection gives them one and the same start location, so
+        # whatever a reader remembers per start location belongs to several different block lists
+        ents = treegen.gen_tree(r, bs=4096, nfiles=3, ndirs=1, specials=False, xattrs=False, hardlinks=False)
+        for j in range(r.choice([2, 3])):
+            blocks = [r.randbytes(4096) for _ in range(r.choice([3, 4, 6]))]
+            tail = r.randbytes(r.choice([0, 0, 700]))
+            for v in range(r.choice([3, 4])):
+                seq = list(blocks)
+                for _ in range(0 if v == 0 else r.choice([1, 1, 2, 3])):
+                    seq.insert(r.randrange(len(seq) + 1), b"\0" * 4096)
+                ents.append(treegen.Entry(b"hv%d_%d" % (j, v), treegen.FILE, content=b"".join(seq) + tail, mode=0o644, uid=0, gid=0, mtime=3))
     ents = [e for e in ents if treegen.packfile_representable(e)]
     treegen.emit_packfile(ents, cd)
     treegen.emit_xattr_file(ents, cd)
@@ -194,6 +207,7 @@ def main():
     bdir = vfbuild.build()
     nimg, nhist, ndamaged, histlen = (32, 500, 6, 40) if t == "quick" else (400, 5000, 24, 120)
     items = [(bdir, derive(seed, "c10", i) >> 1, nhist, ndamaged, histlen, "asan" if i % 4 == 3 else "plain") for i in range(nimg)]
+    items += [(bdir, (derive(seed, "c10hv", i) >> 1) | (1 << 63), nhist, 2, histlen, "asan" if i % 4 == 3 else "plain") for i in range(4 if t == "quick" else 24)]
     results = list(pmap_unordered(work, items))
     vg = pmap(valgrind_work, [(bdir, derive(seed, "c10vg", i) >> 1, 25 if t == "quick" else 200) for i in range(4 if t == "quick" else 32)])
     stat = {}
